@@ -85,6 +85,28 @@ def transparency(ctx, tier, rng):
             r = observe_route(SSF, bare, path, q)
             if r is not None:
                 cases.append(("ssf-route %s %s" % (G.hx(path), G.hx(q)), r, case))
+        # function-free clauses whose string constant contains parentheses (a literal is not a call)
+        for v in spec["vars"]:
+            if v["k"] != "sq":
+                continue
+            for cname, cty in v["cols"]:
+                if cty != "U" or rng.random() < 0.5:
+                    continue
+                lit = rng.choice(["(a)", "f(1)", "a(b)c", "()", "mean(a,0)", "x)(y)"])
+                q = '%s&%s.%s%s"%s"' % (v["name"], v["name"], cname, rng.choice(["=", "!=", "<", ">="]), lit)
+                ext = rng.choice(["dds", "dods", "ascii"])
+                path = "/d." + ext
+                a, b = G.run_request(bare, path, q), G.run_request(wrapped, path, q)
+                same = all(a[k] == b[k] for k in ("exc", "status", "ctype", "cdesc", "body", "body_exc"))
+                case = {"kind": "transparency", "dataset": sx, "path": path, "query": q}
+                if not same or a["exc"] or a["status"] != 200:
+                    ctx.oracle_fail("function-free request answered differently with and without the middleware", case,
+                                    c15.canon_impl(b)[:200], c15.canon_impl(a)[:200], size=len(q))
+                ctx.count(("tr", sx, path, q), True, tag="transparent-paren-literal|%s|%s" % (ext, "same" if same else "DIFFERENT"),
+                          sample={"path": path, "query": q})
+                r = observe_route(SSF, bare, path, q)
+                if r is not None:
+                    cases.append(("ssf-route %s %s" % (G.hx(path), G.hx(q)), r, case))
         # requests with calls, das, unparsable CEs, paths without dot: only the routing is compared here
         a0 = rng.choice(arrays)
         extra = ["mean(%s,0)" % a0, "%s,mean(%s,0)" % (a0, a0), "mean(mean(g,0),0)", "s&bounds(0,1,0,1,0,1,00Z01JAN1970,00Z01JAN1970)",
